@@ -218,6 +218,29 @@ func c12ToInt(c *Ctx) {
 		if add == nil {
 			add, _ = ana.Find("maybe(call<(*math/big.Int).Add>(self, self, obj(alloc<math/big.Int>, maybe(call<(*math/big.Int).SetUint64>(self, phi(bin<+>("+horner+", 1), "+horner+"))))))", t)
 		}
+		// … or every chunk added as it is and the +1 added once to the finished number (the last thing done to it)
+		plusAfter := false
+		if add == nil && t.Op == "obj" {
+			for _, p := range []string{
+				"maybe(call<(*math/big.Int).Add>(self, self, obj(alloc<math/big.Int>, call<(*math/big.Int).SetUint64>(self, " + horner + "), ...)))",
+				"maybe(call<(*math/big.Int).Add>(self, self, obj(alloc<math/big.Int>, maybe(call<(*math/big.Int).SetUint64>(self, " + horner + ")))))",
+			} {
+				if a2, _ := ana.Find(p, t); a2 != nil {
+					last := t.Args[len(t.Args)-1]
+					if matches("call<(*math/big.Int).Add>(self, self, call<math/big.NewInt>(1))", last) {
+						n1 := 0
+						for _, ev := range t.Args[1:] {
+							if w, _ := ana.Find("call<math/big.NewInt>(1)", ev); w != nil {
+								n1++
+							}
+						}
+						if n1 == 1 {
+							add, plusAfter = a2, true
+						}
+					}
+				}
+			}
+		}
 		r.Check(okH && mul != nil && add != nil && okOuter && okInner, "C12.toInt.structure", c.ipos(e.Instr), "b = 9·d(t[242]) + 3·d(t[241]) + d(t[240]); for i = 5..0: b = b·3^40 + v_i, v_i = Horner over chunk i from its high end (header=%v mul=%v add=%v outer=%v inner=%v)", okH, mul != nil, add != nil, okOuter, okInner)
 		// +1 only for the lowest chunk: the phi picks v+1 exactly on the i==0 edge
 		okPlus := false
@@ -237,6 +260,10 @@ func c12ToInt(c *Ctx) {
 					}
 				}
 			}
+		}
+		if plusAfter {
+			r.OK("C12.toInt.plus-one-lowest", c.ipos(e.Instr), "the +1 is added exactly once, to the finished number")
+			continue
 		}
 		r.Check(okPlus && len(plus1) == 1, "C12.toInt.plus-one-lowest", c.ipos(e.Instr), "the +1 (hash read as base-3 number plus one) is added exactly once, to the lowest chunk (i == 0)")
 	}
